@@ -30,7 +30,7 @@ ANCHORS = [
     "job_shop_lib.dispatching._ready_operation_filters:filter_non_immediate_operations",
 ]
 ASSUMPTIONS = ["filters combined with zero durations are out of the property's scope"]
-REQUIRED_COUNTERS = {"histories_with_all_observers_attached": 50, "episodes_after_reset": 50, "disturbing_min_start_time_calls": 100, "clock_steps_checked": 1000, "twin_clock_checks": 300,
+REQUIRED_COUNTERS = {"fractional_histories": 20, "rule_evaluations_before_clock_read": 100, "histories_with_all_observers_attached": 50, "episodes_after_reset": 50, "disturbing_min_start_time_calls": 100, "clock_steps_checked": 1000, "twin_clock_checks": 300,
                      "completion_checks": 50}
 WORKERS = {"quick": 1, "thorough": 14}
 
@@ -48,6 +48,12 @@ def gen_cases(ctx):
         c["kind"] = "history"
         c["episodes"] = rng.choice([1, 1, 2, 3])
         c["observers"] = rng.random() < 0.25   # every built-in observer + residual updater attached
+        if i % 40 == 7:
+            # non-integral durations: only monotonicity, growth of the completed set and
+            # "clock == makespan at completion" are judged (the library truncates the clock)
+            c["instance"] = gen.gen_instance(rng, "fractional", max_jobs=4, max_machines=3)
+            c["filter"] = None
+            c["observers"] = False
         yield c
     for i, name in enumerate(["ft06", "la01"] if ctx.tier == "quick" else ["ft06", "la01", "la02", "orb01", "abz5"]):
         if i % ctx.nshards == ctx.shard:
@@ -72,6 +78,10 @@ def one_history(ctx, case, explicit=None, instance=None):
     if run.filter_names is not None:
         twin = Dispatcher(run.instance)  # unfiltered twin
     d, r = run.d, run.r
+    fractional = case["instance"].get("cls") == "fractional"
+    if fractional:
+        run.clock_exact = False      # no reference equality for the truncated clock
+        ctx.count("fractional_histories")
     if case.get("observers"):
         # observers are clients of the dispatcher's (cached) queries too
         from . import _snap
@@ -109,10 +119,28 @@ def one_history(ctx, case, explicit=None, instance=None):
             pol = case["policy"]
             o, m = run.choose(rng, pol if pol != "mixed" else rng.choice(gen.POLICIES))
         k += 1
+        if not fractional and rng.random() < 0.25:
+            # built-in rules and scoring functions are clients of the cached lists as well:
+            # evaluating one must not move the clock
+            from job_shop_lib.dispatching.rules import (
+                dispatching_rule_factory, score_based_rule_with_tie_breaker,
+                shortest_processing_time_score, most_operations_remaining_score)
+            which = rng.randrange(6)
+            rule = (score_based_rule_with_tie_breaker(
+                        [shortest_processing_time_score, most_operations_remaining_score][: 1 + which % 2])
+                    if which >= 4 else dispatching_rule_factory(
+                        ["shortest_processing_time", "first_come_first_served", "most_work_remaining",
+                         "most_operations_remaining"][which]))
+            rule(d)
+            ctx.count("rule_evaluations_before_clock_read")
+            if run.clock_exact and d.current_time() != r.current_time(None):
+                ctx.violation("c06_clock_moved_by_a_rule_evaluation",
+                              {"got": d.current_time(), "want": r.current_time(None),
+                               "history": list(r.history), "filter": run.filter_names})
         # warm the caches that hold pre-state answers
         d.current_time(); d.completed_operations()
         run.dispatch(o, m)
-        if rng.random() < 0.3:
+        if rng.random() < 0.3 and not fractional:
             # a public query with its own argument must not disturb the clock
             pool = r.unscheduled()
             sub = rng.sample(pool, rng.randint(1, len(pool))) if pool else []
